@@ -270,8 +270,17 @@ def reachable(pc):
     return r != "unsat"
 
 
+class BackendDisagreement(Exception):
+    """z3 proved a verification condition that cvc5 refutes (thorough tier): a checker error, never a verdict."""
+
+
+CROSS = os.environ.get("PYVC_CROSS") == "1"
+CROSS_STATS = {"agreed": 0, "unknown": 0}
+
+
 def valid(pc, goal, want_model=True):
-    """Is ``pc => goal`` valid?  Returns ('proved'|'refuted'|'unknown', model, seconds).  A conjunction is checked conjunct by conjunct."""
+    """Is ``pc => goal`` valid?  Returns ('proved'|'refuted'|'unknown', model, seconds).  A conjunction is checked conjunct by conjunct.
+    With PYVC_CROSS=1 (thorough tier) every VC that z3 proves is re-discharged by cvc5; a refutation by cvc5 raises BackendDisagreement."""
     goals = goal.children() if z3.is_app(goal) and goal.decl().kind() == z3.Z3_OP_AND and goal.num_args() > 0 else [goal]
     total = 0.0
     for g in goals:
@@ -279,6 +288,14 @@ def valid(pc, goal, want_model=True):
         total += dt
         if r != "unsat":
             return {"sat": "refuted"}.get(r, "unknown"), m, total
+        if CROSS and not z3.is_true(z3.simplify(g)):
+            t0 = time.time()
+            c = cross_check(pc, g, timeout_ms=10000)
+            STATS.time += time.time() - t0
+            STATS.by_backend["cvc5"] = STATS.by_backend.get("cvc5", 0) + 1
+            if c == "refuted":
+                raise BackendDisagreement(f"z3 proves, cvc5 refutes: {str(g)[:300]}")
+            CROSS_STATS["agreed" if c == "proved" else "unknown"] += 1
     return "proved", None, total
 
 
@@ -302,8 +319,8 @@ def check_cvc5(smt2_text, timeout_ms):
 def cross_check(pc, goal, timeout_ms=None):
     """Re-discharge a VC with cvc5 (thorough tier). Returns 'proved'|'refuted'|'unknown'."""
     s = z3.Solver()
-    s.add(relevant_axioms(list(pc) + [goal]))
-    s.add(list(pc))
-    s.add(z3.Not(goal))
+    cons = normalize(list(pc) + [z3.Not(goal)])
+    s.add(relevant_axioms(cons))
+    s.add(cons)
     r = check_cvc5(s.to_smt2(), timeout_ms or DEFAULT_TIMEOUT_MS)
     return {"unsat": "proved", "sat": "refuted"}.get(r, "unknown")
